@@ -44,7 +44,8 @@ def cases(tier, seed):
 def targets(tier):
     k = 1 if tier == "quick" else 8
     t = {"steps": 40000 * k, "cuts": 1000 * k, "multi_bucket_cuts": 100 * k, "histories_depth4plus": 50 * k,
-         "cuts:ADWINAccuracy": 50 * k, "accuracy_nondefault_params": 50}
+         "cuts:ADWINAccuracy": 50 * k, "accuracy_nondefault_params": 50,
+         "explicit_resets": 300 * k, "numpy_typed_parameters": 60 * k}
     for m in (1, 2, 3, 5):
         t["cuts:M%d" % m] = 50 * k
     return t
@@ -101,7 +102,24 @@ def run_case(case, ctx):
     sh = Shadow(lambda: AdwinModel(**kw), lambda m: m.state)
     cuts = 0
     rngl = np.random.default_rng(len(xs))
+    resets = set(case.get("literal", {}).get("resets", []))
+    if "literal" not in case:
+        # the public reset() between two updates (an ensemble resets all members when one of them drifted): it clears state and
+        # recommendations; the window "shrinks only in an update that reports drift" and the check schedule is unaffected
+        resets = {int(v) for v in np.random.default_rng([len(xs), 7]).integers(1, len(xs), size=int(len(xs) * 0.012) + (len(xs) % 2))}
+    ptyped = bool(case.get("literal", {}).get("numpy_params")) if "literal" in case else bool(len(xs) % 3 == 0)
+    if ptyped:
+        # the same parameter values as numpy scalars (from a parameter grid held in an array / DataFrame)
+        ctx.count("numpy_typed_parameters")
+        d = (ADWIN if cls == "ADWIN" else ADWINAccuracy)(**gen.numpyfy(kw))
     for i, x in enumerate(xs):
+        if i in resets:
+            d.reset()
+            ctx.count("explicit_resets")
+            if d.drift_state is not None or list(d.retraining_recs) != [None, None]:
+                ctx.violation("C03/%s/reset" % cls, "after reset(): drift_state %r, retraining_recs %r" % (d.drift_state, list(d.retraining_recs)),
+                              cls=cls, params=kw, stream=xs[:i], step=i, resets=sorted(resets), numpy_params=ptyped)
+                break
         if cls == "ADWIN":
             if typed:
                 tx = np.dtype(typed).type(x)
@@ -119,7 +137,7 @@ def run_case(case, ctx):
         ctx.count("steps")
         if adopted:
             ctx.count("near_ties_adopted")
-        base = dict(cls=cls, params=kw, stream=xs[: i + 1], step=i)
+        base = dict(cls=cls, params=kw, stream=xs[: i + 1], step=i, resets=sorted(r for r in resets if r <= i), numpy_params=ptyped)
         if not ok:
             ctx.violation("C03/%s/cut_decision" % cls,
                           "%s(%s) update %d: implementation %r, specification %r (window %d, margins %s)" % (
